@@ -123,3 +123,17 @@ Proof.
   intros h E. unfold model_framing, model_te_stage. cbn [beqb s_1_1 N.eqb Pos.eqb andb].
   rewrite E. reflexivity.
 Qed.
+
+(* a request-target with a non-ASCII octet is refused (400 Bad URI), unless it
+   begins with "//" -- the exception is the open finding kf_c01_target_nonascii *)
+Lemma non_ascii_target_refused : forall uri,
+  beqb (firstn 2 uri) [47; 47] = false -> existsb (fun x => 128 <=? x) uri = true ->
+  split_uri uri = SBadURI.
+Proof.
+  intros uri H2 H. unfold split_uri. rewrite H2. unfold urlsplit. rewrite H. reflexivity.
+Qed.
+
+Lemma non_ascii_target_dslash_accepted :
+  exists uri, existsb (fun x => 128 <=? x) uri = true /\
+              match split_uri uri with SOk _ _ _ _ _ => True | _ => False end.
+Proof. exists [47; 47; 97; 233]. split; [reflexivity|]. vm_compute. exact I. Qed.
